@@ -53,7 +53,7 @@ XML_STUB(MATCH_SIG(Parser_matchString), MATCH_PRE, G_match_calls++; size_t iora_
 XML_STUB(MATCH_SIG(Parser_matchWordCaseInsensitive), MATCH_PRE, G_match_calls++; size_t iora_glen = XML_SLEN(s);, MATCHWORD_STUB_POST, CUR_FRAMELIST)
 XML_STUB(TOKEN_SIG(Parser_readText), RTEXT_PRE, READER(R_TEXT), RTEXT_SAFE RTEXT_SLICE RTEXT_CONTENT, TOKEN_FRAMELIST)
 XML_STUB(TOKEN_SIG(Parser_readProcessingInstruction), OTHER_PRE, READER(R_PI), OTHER_SAFE OTHER_TOKEN(TokenKind_ProcessingInstruction), TOKEN_FRAMELIST)
-XML_STUB(TOKEN_SIG(Parser_readDoctype), OTHER_PRE, READER(R_DOCTYPE), OTHER_SAFE OTHER_TOKEN(TokenKind_Doctype), TOKEN_FRAMELIST)
+XML_STUB(TOKEN_SIG(Parser_readDoctype), DOCTYPE_PRE, READER(R_DOCTYPE), OTHER_SAFE OTHER_TOKEN(TokenKind_Doctype) DOCTYPE_SLICE, TOKEN_FRAMELIST)
 XML_STUB(TOKEN_SIG(Parser_readComment), DELIM_PRE, READER(R_COMMENT), DELIM_POST(TokenKind_Comment), TOKEN_FRAMELIST)
 XML_STUB(TOKEN_SIG(Parser_readCData), DELIM_PRE, READER(R_CDATA), DELIM_POST(TokenKind_CData), TOKEN_FRAMELIST)
 XML_STUB(TOKEN_SIG(Parser_readEndTag), END_PRE, READER(R_END), END_SAFE END_POP END_MATCH, END_FRAMELIST)
@@ -81,7 +81,8 @@ void h_next(void)
   Parser PS;                                  /* every field nondeterministic */
   Parser *self = &PS;
   IORA_TRUE = 1;
-  __CPROVER_assume(XML_SMALL(PS._input.n, XML_IN_BITS));
+  /* readDoctype (a callee) is proved for inputs of fewer than 2^31 bytes only (its `int` bracket counter): that bound is part of next()'s precondition */
+  __CPROVER_assume(XML_SMALL(PS._input.n, XML_DOCTYPE_IN_BITS));
   PS._input.p = (const char *)malloc(PS._input.n);   /* symbolic size, nondeterministic content */
   __CPROVER_assume(PS._input.p != NULL);
   /* precondition of next(): the parser invariants + the ghost definitions */
